@@ -762,15 +762,19 @@ impl DhtNetworkManager {
         // Replicate to closest nodes in parallel for better performance
         let mut replicated_count = 1; // Local storage
 
-        // Create parallel replication requests
-        let replication_futures = closest_nodes.iter().map(|node| {
-            let peer_id = node.peer_id.clone();
-            let op = operation.clone();
-            async move {
-                debug!("Sending PUT to peer: {}", peer_id);
-                (peer_id.clone(), self.send_dht_request(&peer_id, op).await)
-            }
-        });
+        // Create parallel replication requests. The lookup result includes the local node,
+        // which has just stored the value itself and is never addressed over the network.
+        let replication_futures = closest_nodes
+            .iter()
+            .filter(|node| !self.is_local_peer_id(&node.peer_id))
+            .map(|node| {
+                let peer_id = node.peer_id.clone();
+                let op = operation.clone();
+                async move {
+                    debug!("Sending PUT to peer: {}", peer_id);
+                    (peer_id.clone(), self.send_dht_request(&peer_id, op).await)
+                }
+            });
 
         // Execute all replication requests in parallel
         let results = futures::future::join_all(replication_futures).await;
@@ -1417,8 +1421,7 @@ impl DhtNetworkManager {
                                     .is_some_and(|worst| {
                                         matches!(
                                             Self::compare_node_distance(&node, worst, key),
-                                            std::cmp::Ordering::Equal
-                                                | std::cmp::Ordering::Greater
+                                            std::cmp::Ordering::Equal | std::cmp::Ordering::Greater
                                         )
                                     });
                             if !dominated {
@@ -2790,6 +2793,9 @@ impl Default for DhtNetworkConfig {
 impl DhtNetworkManager {
     /// Number of entries in the pending DHT operation table.
     pub fn verif_active_operations_len(&self) -> usize {
-        self.active_operations.lock().map(|ops| ops.len()).unwrap_or(0)
+        self.active_operations
+            .lock()
+            .map(|ops| ops.len())
+            .unwrap_or(0)
     }
 }
